@@ -75,9 +75,15 @@ OpListings == { <<InsnLine("401000", <<"90">>, "op", o)>> : o \in OpLists }
                : o1 \in { <<f, Mem("0x108", "%rsp", "", "")>> : f \in {Imm("0x1"), Imm("0x2")} },
                  o2 \in { <<f, Mem("0x108", "%rsp", "", "")>> : f \in {Imm("0x1"), Imm("0x2")} } \cup { <<Reg("%rax"), Mem("0x110", "%rsp", "", "")>> } }
 
+\* operand-less instructions whose mnemonic is spelled with the letters a-f only (32-bit code: daa, aaa; x87 forms):
+\* the text after the last TAB of such a line looks like a column of raw bytes, and is an instruction all the same
+HexMnemonics == {"daa", "aaa", "fadd", "dec"}
+HexListings == { <<I1, InsnLine("401001", <<"27">>, m, <<>>), I3>> : m \in HexMnemonics }
+        \cup { <<InsnLine("401001", <<"27">>, m, <<>>)>> : m \in HexMnemonics }
+        \cup { <<I6, C6, InsnLine("40101d", <<"37">>, m, <<>>), C6>> : m \in HexMnemonics }
 \* a block of ordinary instruction lines, repeated K times by the harness for listings of 10^4 .. 10^6 lines
 ScaleBlock == <<I1, I2, I4, I5, I3, I13, I11>>
-Universe == [listings |-> SetToSeq(Listings \cup OpListings)]
+Universe == [listings |-> SetToSeq(Listings \cup OpListings \cup HexListings)]
 Export == [listings |-> [n \in DOMAIN Universe.listings |->
              [listing |-> Universe.listings[n], lines |-> ListingLines(Universe.listings[n])]],
            scale_block |-> ListingLines(ScaleBlock)]
